@@ -8,6 +8,9 @@
 //   InsertExtra / RemoveExtra (entity 0)   a structural change (travels in the reliable update message)
 //   TickDD | TickLD | TickDH   one server tick; mutate messages Delivered or Lost (unreliable channel); the client's
 //                              acknowledgements Delivered or Held back until the next tick that delivers them (reliable)
+//   TickMD               as TickDD, but the mutate messages overtake the update message of the same tick (they are buffered by
+//                        the client until the update message arrives)
+//   SpawnMapped          (once) a new server entity mapped to an entity the client spawned in advance (ClientEntityMap)
 //   BogusAck             an acknowledgement naming a message index that is not in flight
 //   ReplayAcks           the last delivered acknowledgement message once more (its indices are no longer in flight)
 // The harness keeps its own record: `ver(e)`, and `acked(e)` = the newest version of e contained in an update message or in
@@ -52,7 +55,7 @@ mod verif_search_a {
     }
 
     #[derive(Clone, Copy, Debug, PartialEq)]
-    enum Op { Mutate(u8), InsertExtra, RemoveExtra, TickDD, TickLD, TickDH, BogusAck, ReplayAcks }
+    enum Op { Mutate(u8), InsertExtra, RemoveExtra, TickDD, TickLD, TickDH, TickMD, SpawnMapped, BogusAck, ReplayAcks }
 
     fn new_app() -> App {
         let mut app = App::new();
@@ -68,7 +71,9 @@ mod verif_search_a {
 
     struct Sim {
         server: App, client: App, ce: Entity,
-        ent: [Entity; 2], ver: [u16; 2], acked: [u16; 2], extra: Option<u16>, structural: [bool; 2], next_ver: u16,
+        ent: Vec<Entity>, ver: [u16; 3], acked: [u16; 3], extra: Option<u16>, structural: [bool; 3], next_ver: u16,
+        /// the client entity the third server entity is mapped to (after SpawnMapped)
+        premapped: Option<Entity>,
         /// acknowledgement messages the client produced that have not reached the server, each with what it acknowledges
         held_acks: Vec<(Vec<u8>, Vec<(usize, u16)>)>,
         last_delivered_ack: Option<Vec<u8>>,
@@ -82,9 +87,9 @@ mod verif_search_a {
             let ce = **client.world().resource::<TestClientEntity>();
             let e0 = server.world_mut().spawn((Replicated, Secret(payload(0, 0, 1)))).id();
             let e1 = server.world_mut().spawn((Replicated, Secret(payload(1, 0, 2)))).id();
-            let mut s = Self { server, client, ce, ent: [e0, e1], ver: [1, 2], acked: [0, 0], extra: None, structural: [true, true], next_ver: 3,
-                               held_acks: Vec::new(), last_delivered_ack: None };
-            for i in 0..2 { if let Some(why) = s.tick(true, true, 0) { return Err(format!("[start state, tick {i}] {why}")); } }
+            let mut s = Self { server, client, ce, ent: std::vec![e0, e1], ver: [1, 2, 0], acked: [0, 0, 0], extra: None, structural: [true, true, false], next_ver: 3,
+                               premapped: None, held_acks: Vec::new(), last_delivered_ack: None };
+            for i in 0..2 { if let Some(why) = s.tick(true, true, false, 0) { return Err(format!("[start state, tick {i}] {why}")); } }
             Ok(s)
         }
 
@@ -104,9 +109,17 @@ mod verif_search_a {
                     self.server.world_mut().entity_mut(self.ent[0]).remove::<Extra>();
                     self.extra = None; self.structural[0] = true;
                 }
-                Op::TickDD => return self.tick(true, true, step),
-                Op::TickLD => return self.tick(false, true, step),
-                Op::TickDH => return self.tick(true, false, step),
+                Op::TickDD => return self.tick(true, true, false, step),
+                Op::TickLD => return self.tick(false, true, false, step),
+                Op::TickDH => return self.tick(true, false, false, step),
+                Op::TickMD => return self.tick(true, true, true, step),
+                Op::SpawnMapped => {
+                    let v = self.next_ver; self.next_ver += 1;
+                    let e2 = self.server.world_mut().spawn((Replicated, Secret(payload(2, 0, v)))).id();
+                    let c2 = self.client.world_mut().spawn_empty().id();
+                    self.server.world_mut().get_mut::<crate::server::client_entity_map::ClientEntityMap>(self.ce).unwrap().insert(e2, c2);
+                    self.ent.push(e2); self.ver[2] = v; self.structural[2] = true; self.premapped = Some(c2);
+                }
                 Op::BogusAck => {
                     // fixint little-endian u16 index far away from anything in flight
                     self.server.world_mut().resource_mut::<RepliconServer>().insert_received(self.ce, ClientChannel::MutationAcks, std::vec![0x40u8, 0x9c]);
@@ -121,7 +134,7 @@ mod verif_search_a {
         }
 
         /// One server tick. `deliver_mut`: mutate messages reach the client; `deliver_acks`: pending acknowledgements reach the server.
-        fn tick(&mut self, deliver_mut: bool, deliver_acks: bool, step: usize) -> Option<String> {
+        fn tick(&mut self, deliver_mut: bool, deliver_acks: bool, mut_first: bool, step: usize) -> Option<String> {
             self.server.update();
             let sent: Vec<(usize, Vec<u8>)> = self.server.world_mut().resource_mut::<RepliconServer>().drain_sent()
                 .filter(|(c, ..)| *c == self.ce).map(|(_, ch, m)| (ch, m.to_vec())).collect();
@@ -130,7 +143,7 @@ mod verif_search_a {
             // what the model expects of this tick
             let structural = self.structural;
             let mut any_expected = false;
-            for e in 0..2 {
+            for e in 0..self.ent.len() {
                 let in_mut: Vec<u16> = sent.iter().filter(|(ch, _)| *ch == mutations_channel)
                     .flat_map(|(_, m)| payloads_in(m)).filter(|p| p.0 == e as u8 && p.1 == 0).map(|p| p.2).collect();
                 if structural[e] {
@@ -153,22 +166,32 @@ mod verif_search_a {
                     return Some(format!("step {step}: entity {e} version {} is acknowledged, yet it is re-sent (versions {in_mut:?})", self.ver[e]));
                 }
             }
-            self.structural = [false, false];
+            self.structural = [false, false, false];
             if !any_expected && !sent.is_empty() {
                 return Some(format!("step {step}: nothing changed and everything is acknowledged, yet the server sent {} message(s) (channels {:?}, sizes {:?})",
                                     sent.len(), sent.iter().map(|m| m.0).collect::<Vec<_>>(), sent.iter().map(|m| m.1.len()).collect::<Vec<_>>()));
             }
             // delivery
             let mut received_mut: Vec<Vec<(usize, u16)>> = Vec::new();
-            for (ch, m) in sent {
-                if ch == mutations_channel {
-                    if !deliver_mut { continue; }
-                    received_mut.push(payloads_in(&m).into_iter().filter(|p| p.1 == 0).map(|p| (p.0 as usize, p.2)).collect());
+            let mut acks: Vec<(usize, Vec<u8>)> = Vec::new();
+            // mutate messages first when they overtake the update message, last otherwise (one client frame each then)
+            for pass in 0..2 {
+                let mutations_now = (pass == 0) == mut_first;
+                let mut any = false;
+                for (ch, m) in &sent {
+                    if (*ch == mutations_channel) != mutations_now { continue; }
+                    if *ch == mutations_channel {
+                        if !deliver_mut { continue; }
+                        received_mut.push(payloads_in(m).into_iter().filter(|p| p.1 == 0).map(|p| (p.0 as usize, p.2)).collect());
+                    }
+                    any = true;
+                    self.client.world_mut().resource_mut::<RepliconClient>().insert_received(*ch, m.clone());
                 }
-                self.client.world_mut().resource_mut::<RepliconClient>().insert_received(ch, m);
+                if mut_first || pass == 1 {
+                    if any || pass == 1 { self.client.update(); }
+                    acks.extend(self.client.world_mut().resource_mut::<RepliconClient>().drain_sent().map(|(ch, m)| (ch, m.to_vec())));
+                }
             }
-            self.client.update();
-            let acks: Vec<(usize, Vec<u8>)> = self.client.world_mut().resource_mut::<RepliconClient>().drain_sent().map(|(ch, m)| (ch, m.to_vec())).collect();
             let ack_channel: usize = ClientChannel::MutationAcks.into();
             let ack_bytes: Vec<u8> = acks.iter().filter(|(ch, _)| *ch == ack_channel).flat_map(|(_, m)| m.clone()).collect();
             if !received_mut.is_empty() && ack_bytes.len() != 2 * received_mut.len() {
@@ -193,13 +216,16 @@ mod verif_search_a {
         }
 
         fn converged(&mut self) -> Option<String> {
-            for e in 0..2 {
+            for e in 0..self.ent.len() {
                 let Some(&local) = self.client.world().resource::<ServerEntityMap>().to_client().get(&self.ent[e]) else {
                     return Some(format!("closing: the client has no entity for server entity {e}"));
                 };
                 let want = Secret(payload(e as u8, 0, self.ver[e]));
                 let got = self.client.world().get::<Secret>(local).copied();
                 if got != Some(want) { return Some(format!("closing: after two fully delivered ticks the client has {got:?} for entity {e}, the server has {want:?} - data was skipped")); }
+                if e == 2 && Some(local) != self.premapped {
+                    return Some(format!("closing: the mapped server entity landed on client entity {local}, not on the pre-spawned {:?}", self.premapped));
+                }
                 if e == 0 {
                     let want = self.extra.map(|v| Extra(payload(0, 1, v)));
                     let got = self.client.world().get::<Extra>(local).copied();
@@ -215,14 +241,15 @@ mod verif_search_a {
         for (step, op) in ops.iter().enumerate() {
             if let Some(why) = s.apply(*op, step) { return Some(why); }
         }
-        for extra in 0..2 { if let Some(why) = s.tick(true, true, ops.len() + extra) { return Some(format!("[closing tick {extra}] {why}")); } }
+        for extra in 0..2 { if let Some(why) = s.tick(true, true, false, ops.len() + extra) { return Some(format!("[closing tick {extra}] {why}")); } }
         if let Some(why) = s.converged() { return Some(why); }
-        if let Some(why) = s.tick(true, true, ops.len() + 2) { return Some(format!("[closing tick 2: must be silent] {why}")); }
+        if let Some(why) = s.tick(true, true, false, ops.len() + 2) { return Some(format!("[closing tick 2: must be silent] {why}")); }
         None
     }
 
     fn applicable(ops: &[Op]) -> bool {
         let mut extra = false;
+        if ops.iter().filter(|o| **o == Op::SpawnMapped).count() > 1 { return false; }
         for op in ops {
             match op { Op::InsertExtra => { if extra { return false; } extra = true; } Op::RemoveExtra => { if !extra { return false; } extra = false; } _ => {} }
         }
@@ -233,7 +260,7 @@ mod verif_search_a {
     fn parse(sv: &str) -> Vec<Op> {
         sv.split(',').filter(|t| !t.is_empty()).map(|t| match t {
             "Mutate-0" => Op::Mutate(0), "Mutate-1" => Op::Mutate(1), "InsertExtra" => Op::InsertExtra, "RemoveExtra" => Op::RemoveExtra,
-            "TickLD" => Op::TickLD, "TickDH" => Op::TickDH, "BogusAck" => Op::BogusAck, "ReplayAcks" => Op::ReplayAcks, _ => Op::TickDD,
+            "TickLD" => Op::TickLD, "TickDH" => Op::TickDH, "TickMD" => Op::TickMD, "SpawnMapped" => Op::SpawnMapped, "BogusAck" => Op::BogusAck, "ReplayAcks" => Op::ReplayAcks, _ => Op::TickDD,
         }).collect()
     }
 
@@ -248,7 +275,7 @@ mod verif_search_a {
             return;
         }
         let depth: usize = std::env::var("VERIF_DEPTH").ok().and_then(|d| d.parse().ok()).unwrap_or(4);
-        let ops = [Op::Mutate(0), Op::Mutate(1), Op::InsertExtra, Op::RemoveExtra, Op::TickDD, Op::TickLD, Op::TickDH, Op::BogusAck, Op::ReplayAcks];
+        let ops = [Op::Mutate(0), Op::Mutate(1), Op::InsertExtra, Op::RemoveExtra, Op::TickDD, Op::TickLD, Op::TickDH, Op::TickMD, Op::SpawnMapped, Op::BogusAck, Op::ReplayAcks];
         let mut jobs: Vec<Vec<Op>> = Vec::new();
         for len in 0..=depth {
             let mut idx = std::vec![0usize; len];
